@@ -50,6 +50,17 @@ def find_running_min_commits(mod, fn):
                 stores.append((st, t))
         if not stores:
             continue
+        # a commit writes into STATE arrays (parameters / returned arrays); a
+        # mask that only selects cells of a local scratch array (e.g. the
+        # frames to re-measure) is not a running-minimum commit
+        state = set(params(fn))
+        for r in returns_of(fn):
+            rv = fi.resolve(r.value) if isinstance(r.value, ast.Name) else r.value
+            if rv is not None:
+                state |= {x.id for x in (rv.elts if isinstance(rv, ast.Tuple) else [rv])
+                          if isinstance(x, ast.Name)}
+        if not any(isinstance(t.value, ast.Name) and t.value.id in state for _, t in stores):
+            continue
         out.append({'mask_stmt': n, 'mask': mask, 'new': small.id,
                     'cur': big.id, 'strict': strict, 'stores': stores,
                     'cmp': c})
@@ -114,21 +125,32 @@ def check_running_min_commit(ck, rule, mod, qual, require_strict,
         else:
             st, t = label_store
             lab = st.value
+            # the label may be a named temporary (`new_label = len(lst)`): it is
+            # then evaluated at its (single) definition, not at the store
+            ev = st
+            hops = 0
+            while isinstance(lab, ast.Name) and hops < 4:
+                ds = fi.defs_of_use(lab)
+                site = next(iter(ds)) if len(ds) == 1 else None
+                val = fi.def_value(site, lab.id) if site not in (None, 'PARAM', 'UNBOUND') else None
+                if val is None:
+                    break
+                lab, ev, hops = val, site, hops + 1
             if label_kind == 'len-before-append':
                 ok_label = isinstance(lab, ast.Call) and call_name(lab) == 'len' \
                     and len(lab.args) == 1 and isinstance(lab.args[0], ast.Name)
                 if ok_label:
                     lst = lab.args[0].id
-                    # the list must be appended to AFTER this store, exactly
-                    # once on the way to the return, never before
+                    # the list must be appended to AFTER the label is
+                    # evaluated, on the way to the return, never before
                     appends = [c for c in calls_in(fn, '.append')
                                if isinstance(c.func.value, ast.Name)
                                and c.func.value.id == lst]
                     cfg = fi.cfg
                     before = [c for c in appends
-                              if cfg.reachable(fi.stmt(c), st)
-                              and not cfg.reachable(st, fi.stmt(c))]
-                    after = [c for c in appends if cfg.reachable(st, fi.stmt(c))]
+                              if cfg.reachable(fi.stmt(c), ev)
+                              and not cfg.reachable(ev, fi.stmt(c))]
+                    after = [c for c in appends if cfg.reachable(ev, fi.stmt(c))]
                     ck.check(not before and len(after) >= 1,
                              rule + '.label', mod, st, qual, u(st),
                              'label = len(%s) evaluated before the append of the new centre' % lst,
@@ -139,26 +161,7 @@ def check_running_min_commit(ck, rule, mod, qual, require_strict,
                     ck.bad(rule + '.label', mod, st, qual, u(st),
                            'label stored under the commit mask is not len(<centre index list>)')
             else:   # enumerate-index
-                loop = mod.parent.get(st)
-                while loop is not None and not isinstance(loop, ast.For):
-                    loop = mod.parent.get(loop)
-                ok_label = False
-                detail = 'label store is not inside a loop over enumerate(centres)'
-                if loop is not None and isinstance(loop.iter, ast.Call) and \
-                        call_name(loop.iter) == 'enumerate' and isinstance(
-                            loop.target, ast.Tuple) and len(loop.target.elts) == 2:
-                    idx, ctr = loop.target.elts
-                    # new must be distance to `ctr` computed in this trip
-                    newdefs = [a for a in assigns_to(loop, new)]
-                    uses_ctr = any(isinstance(ctr, ast.Name) and ctr.id in
-                                   names_loaded(a.value) for a in newdefs
-                                   if isinstance(a, ast.Assign))
-                    ok_label = isinstance(lab, ast.Name) and isinstance(
-                        idx, ast.Name) and lab.id == idx.id and uses_ctr
-                    detail = ('label must be the enumerate index `%s` of the centre '
-                              'whose distance array `%s` was compared' % (u(idx), new))
-                ck.check(ok_label, rule + '.label', mod, st, qual, u(st),
-                         'label = enumerate index of the compared centre', detail)
+                _check_sweep_label(ck, rule, mod, qual, fi, st, lab, new)
             # same mask value on both stores
             if dist_store is not None:
                 ck.check(fi.same_value(dist_store[1].slice, t.slice),
@@ -168,3 +171,78 @@ def check_running_min_commit(ck, rule, mod, qual, require_strict,
                          'label store and distance store use different mask values')
         good += 1
     return len(inst)
+
+
+def _sweep_loop(mod, fi, st):
+    """The per-centre loop around a label store: (loop, index name, element
+    names, sequence text, problem).  Recognised: `for i, c in enumerate(S)`
+    and `for i in range(len(S))` (element = S[i])."""
+    loop = mod.parent.get(st)
+    while loop is not None and not isinstance(loop, ast.For):
+        loop = mod.parent.get(loop)
+    if loop is None:
+        return None, None, None, None, 'label store is not inside a for loop'
+    it = loop.iter
+    if isinstance(it, ast.Call) and call_name(it) == 'enumerate' and it.args and \
+            isinstance(loop.target, ast.Tuple) and len(loop.target.elts) == 2 and \
+            all(isinstance(e, ast.Name) for e in loop.target.elts):
+        startv = it.args[1] if len(it.args) > 1 else kwarg(it, 'start')
+        if startv is not None and not (isinstance(startv, ast.Constant) and startv.value == 0):
+            if isinstance(startv, ast.Constant):
+                return loop, loop.target.elts[0].id, set(), u(it.args[0]), 'enumerate starts at %s: labels are shifted against the centre positions' % u(startv)
+            return None, None, None, None, 'enumerate start `%s` not recognised' % u(startv)
+        return loop, loop.target.elts[0].id, {loop.target.elts[1].id}, u(it.args[0]), None
+    if isinstance(it, ast.Call) and call_name(it) == 'range' and isinstance(loop.target, ast.Name) \
+            and not it.keywords and 1 <= len(it.args) <= 2:
+        if len(it.args) == 2 and not (isinstance(it.args[0], ast.Constant) and it.args[0].value == 0):
+            return None, None, None, None, 'range start `%s` not recognised' % u(it.args[0])
+        stop = fi.expand(it.args[-1])
+        seq = None
+        if isinstance(stop, ast.Call) and call_name(stop) == 'len' and len(stop.args) == 1:
+            seq = u(stop.args[0])
+        elif isinstance(stop, ast.Subscript) and isinstance(stop.value, ast.Attribute) and \
+                stop.value.attr == 'shape' and u(stop.slice) == '0':
+            seq = u(stop.value.value)
+        if seq is not None:
+            return loop, loop.target.id, set(), seq, None
+    return None, None, None, None, 'loop `for %s in %s` is not a recognised sweep over the centres' % (u(loop.target), u(it)[:60])
+
+
+def _check_sweep_label(ck, rule, mod, qual, fi, st, lab, new):
+    """label = position (in the centre sequence) of the centre whose distance
+    array `new` was compared: the enumerate index / the range(len(S)) index
+    with S[i] as element.  Unrecognised loop shape -> incomplete."""
+    from ..match import classify
+    loop, idx, elems, seq, problem = _sweep_loop(mod, fi, st)
+    if loop is None:
+        ck.missing(rule + '.label', '%s: %s (%s)' % (qual, problem, u(st)[:80]))
+        return
+    if problem:
+        ck.bad(rule + '.label', mod, st, qual, u(st), problem)
+        return
+    # does `new` derive (inside this trip) from the element of this position?
+    todo = [a.value for a in assigns_to(loop, new) if isinstance(a, ast.Assign)]
+    seen_names, feeds = set(), False
+    while todo:
+        e = todo.pop()
+        for x in walk_expr(e):
+            if isinstance(x, ast.Subscript) and u(x.value) == seq and u(x.slice) == idx:
+                feeds = True
+            if isinstance(x, ast.Name) and isinstance(x.ctx, ast.Load) and x.id not in seen_names:
+                seen_names.add(x.id)
+                if x.id in elems:
+                    feeds = True
+                todo += [a.value for a in assigns_to(loop, x.id) if isinstance(a, ast.Assign)]
+    v = classify(lab, [idx], scope={idx} | elems)
+    detail = ('label must be the position `%s` of the centre whose distance array `%s` '
+              'was compared' % (idx, new))
+    if v[0] == 'match' and not feeds:
+        if not [a for a in assigns_to(loop, new) if isinstance(a, ast.Assign)]:
+            ck.missing(rule + '.label', '%s: definition of `%s` inside the sweep not found' % (qual, new))
+            return
+        ck.bad(rule + '.label', mod, st, qual, u(st),
+               'the compared distance array `%s` is not computed from the centre at position `%s` '
+               'of `%s` in this trip' % (new, idx, seq))
+        return
+    ck.decide(v, rule + '.label', mod, st, qual, u(st),
+              'label = position of the compared centre', detail)
